@@ -30,8 +30,10 @@ SCOPE = {
              "every sub-relation of every association incl. self-links and 2-cycles, 4 link decompositions: "
              "one link per pair / per left asset / per right asset / many-to-many) and seeded random models on 3 "
              "assets; (a) direct evaluator calls from every well-typed start set, (b) graph generation with the "
-             "expressions as reaches of steps (1 or 6 steps per language) and 40 inheritance shapes "
-             "(absent / '->' / '+>' / no-reaches per level)",
+             "expressions as reaches of steps (languages of 1 step, of 2 steps with closures, of 8 steps without; one "
+             "step with two reaches expressions) and 40 inheritance shapes (absent / '->' / '+>' / no-reaches per "
+             "level); 2 expressions whose subtype filter is only well-typed under least-common-ancestor typing of "
+             "set operators",
     "thorough": "same structures; + 2500 random expressions of height <=4 per structure; models: all on <=2 assets, "
                 "3000 random on 3 assets and 1500 on 4 assets per structure; seeded fractions of the (model x "
                 "expression batch) product (S3 40%, S2 10%, S1/S4 100%, random models 4%, transitive batches x0.3)",
@@ -50,12 +52,12 @@ ASSUMPTIONS = [
     "reference Sem: field navigation over the recipe's link list, set operators on the operand results from the same "
     "start set, subtype filter with the reflexive-transitive subtype relation, variable = nearest declaration up the "
     "chain, transitive only bounded (interval arithmetic propagates the bounds through later operators)",
-    "termination guard: recursion limit = current depth + 150 frames, at most 200 / 600 / 2000 / 10000 calls (models "
-    "of 1 / 2 / 3 / 4 assets) of Model.get_associated_assets_by_field_name per evaluation or generation (counted by "
-    "a delegating wrapper on the model instance; 25 times as many in a second attempt when no closure of the "
-    "expression works on a field with cyclic links), 30 s wall alarm; exceeding any of them is reported under "
-    "C01.terminates. Generated expressions hold at most 2 subtype filters (variables expanded) because the "
-    "evaluator's intermediate lists grow quadratically with each",
+    "termination guard: recursion limit = current depth + 150 frames; at most B calls of "
+    "Model.get_associated_assets_by_field_name per evaluation or generation (counted by a delegating wrapper on the "
+    "model instance), B = max(200 / 600 / 2000 / 4000 for models of 1 / 2 / 3 / 4 assets, 4 x the reference's bound "
+    "on the navigations of a list-based evaluator that never removes duplicates and whose closures meet no cycle); "
+    "evaluations with B > 200000 are not run; 30 s wall alarm; exceeding a limit is reported under C01.terminates. "
+    "Generated expressions hold at most 2 subtype filters (variables expanded)",
     "the generated asset / association classes (LanguageClassesFactory) are cached per worker process, keyed by the "
     "asset types, associations and defenses of the language; LanguageGraph, Model and AttackGraph are built afresh "
     "for every case",
@@ -66,7 +68,7 @@ BUDGET_S = {"quick": 100, "thorough": 1500}
 CHUNK = 150
 # calls of Model.get_associated_assets_by_field_name allowed per evaluation / generation, by number of assets
 # (largest count observed on terminating evaluations of the pinned tree: 6 / 76 / 36 for 1 / 2 / 3 assets)
-NAV_BUDGET = {1: 200, 2: 600, 3: 2000, 4: 10000}
+NAV_BUDGET = {1: 200, 2: 600, 3: 2000, 4: 4000}
 
 CURATED = {
     "S1": [("A", e) for e in (
@@ -93,6 +95,12 @@ CURATED = {
     )],
     "S4": [("A", ["c", ["v", "v1"], ["f", "bar"]]), ("C", ["c", ["c", ["f", "foo"], ["f", "foo"]], ["f", "baz"]])],
 }
+
+
+# set operators whose operands have different static types: malc types the result by the least common ancestor, so a
+# subtype filter to a type below that ancestor (but not below the left operand) is well-formed MAL
+TYPING = {"S2": [("A", ["s", "B", ["u", ["s", "C", ["f", "down"]], ["f", "up"]]]),
+                 ("C", ["s", "B", ["i", ["s", "C", ["t", "up"]], ["v", "v1"]]])]}
 
 
 def base_steps(L):
@@ -192,59 +200,66 @@ def cases(tier, seed):
 def _cases_of(sname, tier, seed):
     rnd = random.Random("%s/%s/cases" % (seed, sname))
     quick = tier == "quick"
-    if True:
-        L, small, deep = family(sname, tier, seed)
-        eval_lang = G.with_steps(G.STRUCTS[sname], base_steps(L))
-        m12 = [m for n in (1, 2) for m in G.models_exhaustive(L, n)]
-        if quick:
-            big = list(G.models_random(L, 3, 300, rnd))
-        else:
-            big = list(G.models_random(L, 3, 3000, rnd)) + list(G.models_random(L, 4, 1500, rnd))
+    L, small, deep = family(sname, tier, seed)
+    eval_lang = G.with_steps(G.STRUCTS[sname], base_steps(L))
+    m12 = [m for n in (1, 2) for m in G.models_exhaustive(L, n)]
+    if quick:
+        big = list(G.models_random(L, 3, 300, rnd))
+    else:
+        big = list(G.models_random(L, 3, 3000, rnd)) + list(G.models_random(L, 4, 1500, rnd))
 
-        fits = lambda T, types: any(L.is_sub(t, T) for t in types)
-        # (1) one expression per case on the tiny models (smallest recipes)
-        p1 = SINGLES_FRACTION[sname] if quick else 1.0
+    fits = lambda T, types: any(L.is_sub(t, T) for t in types)
+    # (1) one expression per case on the tiny models (smallest recipes)
+    p1 = SINGLES_FRACTION[sname] if quick else 1.0
+    for (types, links, mode) in m12:
+        if mode != "pairs" or not _is_tiny(L, links): continue
+        mrec = G.model_recipe(types, links)
+        for (T, e) in small:
+            if not fits(T, types) or (p1 < 1.0 and rnd.random() >= p1): continue
+            if quick and G.trans_fields(L, e) and rnd.random() < 0.5: continue
+            yield {"k": "eval", "lang": eval_lang, "src": T, "exprs": [full(e)], "model": mrec}
+            yield {"k": "graph", "lang": graph_lang(sname, L, [(T, e)]), "model": mrec}
+    for (T, e) in TYPING.get(sname, []):
+        assert L.type_of(e, T) is not None
         for (types, links, mode) in m12:
-            if mode != "pairs" or not _is_tiny(L, links): continue
+            if mode != "pairs" or not fits(T, types) or (quick and rnd.random() >= 0.3): continue
             mrec = G.model_recipe(types, links)
-            for (T, e) in small:
-                if not fits(T, types) or (p1 < 1.0 and rnd.random() >= p1): continue
-                if quick and G.trans_fields(L, e) and rnd.random() < 0.5: continue
-                yield {"k": "eval", "lang": eval_lang, "src": T, "exprs": [full(e)], "model": mrec}
-                yield {"k": "graph", "lang": graph_lang(sname, L, [(T, e)]), "model": mrec}
-        # (2) batches of expressions x (every <=2-asset model in every decomposition, random larger models);
-        #     expressions with a transitive operator are kept in batches / languages of their own, so that a
-        #     non-terminating closure cannot hide what the other operators do
-        allx = small + deep
-        p2 = QUICK_FRACTION[sname] if quick else THOROUGH_FRACTION[sname]
-        for has_t in (False, True):
-            part = [(T, e) for (T, e) in allx if bool(G.trans_fields(L, e)) == has_t]
-            ne, ng = (25, 8) if not has_t else (6, 2)
-            by_src = {}
-            for (T, e) in part: by_src.setdefault(T, []).append(e)
-            ebatches = [(T, [full(e) for e in es[k:k + ne]]) for T, es in sorted(by_src.items())
-                        for k in range(0, len(es), ne)]
-            mixed = list(part); random.Random("%s/mix/%s" % (seed, sname)).shuffle(mixed)
-            glangs = [graph_lang(sname, L, mixed[k:k + ng]) for k in range(0, len(mixed), ng)]
-            for (types, links, mode) in m12 + big:
-                mrec = G.model_recipe(types, links)
-                p = p2 if mode != "rnd" else (0.12 if quick else 0.04)
-                if has_t: p *= T_FRACTION[sname] if quick else T_FRACTION_THOROUGH
-                for (T, es) in ebatches:
-                    if fits(T, types) and (p >= 1.0 or rnd.random() < p):
-                        yield {"k": "eval", "lang": eval_lang, "src": T, "exprs": es, "model": mrec}
-                for gl in glangs:
-                    if p >= 1.0 or rnd.random() < p:
-                        yield {"k": "graph", "lang": gl, "model": mrec}
-        # (3) inheritance shapes
-        if sname in FOLD_EXPRS:
-            fl = list(fold_languages(sname))
-            for (types, links, mode) in m12 + big[:150]:
-                if mode not in ("pairs", "rnd"): continue
-                if quick and sname == "S2" and mode == "pairs" and rnd.random() >= 0.25: continue
-                mrec = G.model_recipe(types, links)
-                for lrec in fl:
-                    yield {"k": "graph", "lang": lrec, "model": mrec}
+            note = "lca-typing:" + G.OPNAME[e[2][0]]
+            yield {"k": "eval", "lang": eval_lang, "src": T, "exprs": [full(e)], "model": mrec, "note": note}
+            yield {"k": "graph", "lang": graph_lang(sname, L, [(T, e)]), "model": mrec, "note": note}
+    # (2) batches of expressions x (every <=2-asset model in every decomposition, random larger models);
+    #     expressions with a transitive operator are kept in batches / languages of their own, so that a
+    #     non-terminating closure cannot hide what the other operators do
+    allx = small + deep
+    p2 = QUICK_FRACTION[sname] if quick else THOROUGH_FRACTION[sname]
+    for has_t in (False, True):
+        part = [(T, e) for (T, e) in allx if bool(G.trans_fields(L, e)) == has_t]
+        ne, ng = (25, 8) if not has_t else (6, 2)
+        by_src = {}
+        for (T, e) in part: by_src.setdefault(T, []).append(e)
+        ebatches = [(T, [full(e) for e in es[k:k + ne]]) for T, es in sorted(by_src.items())
+                    for k in range(0, len(es), ne)]
+        mixed = list(part); random.Random("%s/mix/%s" % (seed, sname)).shuffle(mixed)
+        glangs = [graph_lang(sname, L, mixed[k:k + ng]) for k in range(0, len(mixed), ng)]
+        for (types, links, mode) in m12 + big:
+            mrec = G.model_recipe(types, links)
+            p = p2 if mode != "rnd" else (0.12 if quick else 0.04)
+            if has_t: p *= T_FRACTION[sname] if quick else T_FRACTION_THOROUGH
+            for (T, es) in ebatches:
+                if fits(T, types) and (p >= 1.0 or rnd.random() < p):
+                    yield {"k": "eval", "lang": eval_lang, "src": T, "exprs": es, "model": mrec}
+            for gl in glangs:
+                if p >= 1.0 or rnd.random() < p:
+                    yield {"k": "graph", "lang": gl, "model": mrec}
+    # (3) inheritance shapes
+    if sname in FOLD_EXPRS:
+        fl = list(fold_languages(sname))
+        for (types, links, mode) in m12 + big[:150]:
+            if mode not in ("pairs", "rnd"): continue
+            if quick and sname == "S2" and mode == "pairs" and rnd.random() >= 0.25: continue
+            mrec = G.model_recipe(types, links)
+            for lrec in fl:
+                yield {"k": "graph", "lang": lrec, "model": mrec}
 
 
 # -----------------------------------------------------------------------------------------------------
@@ -276,7 +291,8 @@ def run_case(recipe):
     seen = set()
     if real.build_error is not None:
         r.check("C01.no-crash", False, real._stage, "building the language / a valid model raised %r" % (real.build_error,),
-                "build:%s:%s" % (real._stage.split(".")[-1], type(real.build_error).__name__))
+                "build:%s:%s%s" % (real._stage.split(".")[-1], type(real.build_error).__name__,
+                                   ":" + recipe["note"] if recipe.get("note") else ""))
         return r
     r.check("C01.no-crash", True, FN_EVAL)
     if recipe["k"] == "eval":
@@ -306,6 +322,7 @@ def _run_eval(recipe, L, mv, real, r, seen):
             lo, hi = mv.sem(e, X)
             if hi: nontrivial = True
             st, got, name, _n, _raw = real.eval(e, X)
+            if st == "skip": continue            # guard would have to allow > CAP navigations: not run
             ok = st == "ok" and lo <= got <= hi and name == G.step_name(e)
             if ok:
                 for c in okc: r.check(c, True, FN_EVAL)
@@ -339,10 +356,9 @@ def _run_graph(recipe, L, mv, real, r, seen):
                 if b: return b
         return None
 
-    st, g = real.generate()
-    if st == "budget" and not any(G.closure_over_cycle_possible(mv, e) for (x, s) in expected
-                                  for e in steps_of[mv.types[x]][s]["exprs"] or []):
-        st, g = real.generate(budget=real.nav_budget * G.BIG)
+    st, g = real.generate([(e, [x]) for (x, s) in expected for e in steps_of[mv.types[x]][s]["exprs"] or []])
+    if st == "skip":
+        return
     if st != "ok":
         b = None
         if st != "exc":
